@@ -6,12 +6,23 @@ per-format quantisation step bounds used by the oracle.
 NOT modelled (float code): endpoint search (line fit, least squares, refinement, quantisation choice),
 palette construction and closest-entry search in f32/Oklab, BC7 mode / partition / p-bit search, dithering.
 What is modelled is everything the property's portability clauses rest on, plus the encoders' fully
-discrete single-colour paths (BC7 all colours; BC4-type UNORM 8-bit values; 5:6:5 corner colours),
-which are compared byte for byte with `dds::encode` in the tie.
+discrete paths, which are compared with `dds::encode` in the tie on every run (`predictBlock`: bytes; `bc7Rule`:
+constraints on the header fields of the emitted BC7 block):
+  * single colours (BC7 all colours; BC4-type UNORM 8-bit values; 5:6:5 corner colours; BC1 transparent block);
+  * BC2 explicit alpha of EVERY block (`bc2AlphaBlock`), border replication of partial blocks (`blockSrc`);
+  * BC4-type UNORM / SNORM blocks of a constant channel (`bc4uSingle`, `bc4sSingle8`: the `closest` branch);
+  * BC7 control flow: modes tried (`bc7ModesTried`), forced p-bits of opaque subsets (`possiblePBits`,
+    `pickBestStates`, `subsetPBits`), rotations (`bc7RotationForced`, `bc7RotationsAllowed`), the constant separated
+    channel of modes 4 / 5 (`singleAlpha`, `sepEndpoints`).
+The f32 expressions that occur on these paths for 8-bit inputs (`n4::from_f32`, `closest_s8_norm` and the
+`BC4_EPSILON` guard, `channel_round/floor/ceil`) are transcribed over the software binary32 of `F32.lean`; the closed
+forms used beside them are proved equal on the whole 8-bit domain in `Proofs/Enc13F32.lean`, `Proofs/Enc13Sep.lean`.
 -/
 import DdsModel.Bc
 import DdsModel.BcSpec
 import DdsModel.Bc7
+import DdsModel.Bc7Spec
+import DdsModel.F32
 namespace Dds.Enc13
 open Dds Dds.Bc
 
@@ -228,6 +239,358 @@ def bestErr (m g : Nat) : Nat :=
         let v := entry8 true k e0 e1 m
         min best (if v ≥ g then v - g else g - v)) best) best) 256
 
+/-! ### block geometry: which input pixel feeds position `p` of block `(bx, by)` -/
+
+/-- `block_universal` (bc.rs, "handle last partial block") + `for_each_f32_rgba_rows` (write_util.rs, "fill missing
+rows"): a column beyond the image repeats the LAST pixel of its row (`row[block_width..].fill(last)`), a row beyond
+the image repeats the FIRST row of the block strip (`intermediate_buffer.copy_within(..width, i * width)`).
+Source `(x, y)` of position `p = 4·i + j` of block `(bx, byy)` of a `w × h` image. -/
+def blockSrc (w h bx byy p : Nat) : Nat × Nat :=
+  let x := bx * 4 + p % 4
+  let y := byy * 4 + p / 4
+  (if x < w then x else w - 1, if y < h then y else byy * 4)
+
+/-- an RGBA8 pixel -/
+structure Px where
+  r : Nat
+  g : Nat
+  b : Nat
+  a : Nat
+  deriving DecidableEq, Repr
+
+def Px.chan (p : Px) (c : Nat) : Nat := if c = 0 then p.r else if c = 1 then p.g else if c = 2 then p.b else p.a
+
+/-- `some v` when channel `c` has the value `v` at every pixel (`stats.min.get(c) == stats.max.get(c)`) -/
+def chanConst (px : List Px) (c : Nat) : Option Nat :=
+  match px with
+  | [] => none
+  | p :: rest => if rest.all (fun q => q.chan c == p.chan c) then some (p.chan c) else none
+
+/-- `BlockStats::new`: minimum / maximum of a channel -/
+def chanMin (px : List Px) (c : Nat) : Nat := px.foldl (fun m p => min m (p.chan c)) 255
+def chanMax (px : List Px) (c : Nat) : Nat := px.foldl (fun m p => max m (p.chan c)) 0
+
+/-- `BlockStats::single_color`: `min == max` in all four channels -/
+def singleColour (px : List Px) : Option Px :=
+  match px with
+  | [] => none
+  | p :: rest => if rest.all (fun q => q == p) then some p else none
+
+/-- `u8::abs_diff` -/
+def absDiff (a b : Nat) : Nat := if a ≥ b then a - b else b - a
+
+/-! ### binary32 helpers (`F32.lean`: every operation is the correctly rounded one) -/
+
+/-- the constant `0.5` -/
+def fHalf : Nat := F32.divLit 1 2
+/-- value of `x.abs()` -/
+def fabs (x : Nat) : Rat := let d := F32.toRat x; if d < 0 then -d else d
+/-- `x.min(1.0)` -/
+def fmin1 (x : Nat) : Nat := if F32.toRat x > 1 then F32.ofNat 1 else x
+/-- `x.clamp(0.0, 1.0)` -/
+def fclamp01 (x : Nat) : Nat := if F32.toRat x < 0 then 0 else fmin1 x
+
+/-! ### BC2 explicit alpha (`bc2_alpha`, bc.rs; `n4::from_f32`, color/formats.rs) -/
+
+/-- `n4::from_f32(x) = (x.min(1.0) * 15.0 + 0.5) as u8`, evaluated in binary32 -/
+def n4FromF32 (x : Nat) : Nat := F32.toU8 (F32.add (F32.mul (fmin1 x) (F32.ofNat 15)) fHalf)
+
+/-- closed form of `n4::from_f32(n8::f32(a))` for an 8-bit input alpha `a`: `15·a/255 + 1/2 = a/17 + 1/2`, floor =
+`(2a + 17) / 34`.  `2a + 17` is odd, so `a/17 + 1/2` is never within 1/34 of an integer and the three f32 roundings
+cannot change the floor; PROVED equal to the binary32 evaluation `n4FromF32 (n8f32 a)` for all 256 values
+(`Proofs/Enc13Single.n4FromU8_is_f32`). -/
+def n4FromU8 (a : Nat) : Nat := (2 * a + 17) / 34
+
+/-- `bc2_alpha` without alpha dithering: `indexes |= (value as u64) << (i * 4)` for the 16 pixels in block order,
+`indexes.to_le_bytes()`; `alphas` = the 16 8-bit input alphas (missing entries read as 0) -/
+def bc2AlphaBlock (alphas : List Nat) : List Nat :=
+  let indexes := (List.range 16).foldl (fun ix i => (ix ||| (n4FromU8 (alphas.getD i 0) <<< (i * 4))) % U64) 0
+  (List.range 8).map fun k => indexes / 256 ^ k % 256
+
+/-- `bc2_alpha` on a block of constant alpha `a` -/
+def bc2AlphaSingle (a : Nat) : List Nat := bc2AlphaBlock (List.replicate 16 a)
+
+/-! ### BC4 / BC5 SNORM: the `closest` branch of `single_color` (bc4.rs) -/
+
+/-- `s8::from_norm`: `(x + 1).wrapping_sub(128)` for `x ≤ 254` -/
+def fromNorm (x : Nat) : Nat := w8 (x + 1 + 128)
+
+/-- `single_color(value, snorm = true)` when `(closest.c0_f - value).abs() < BC4_EPSILON`:
+`closest.with_indexes(IndexList::new_all(0))` with `c0 = s8::from_norm(n)`, `c1 = s8::from_norm(0)`, where
+`n = closest_s8_norm = (254.0 * value + 0.5) as u8`. -/
+def bc4sClosest (n : Nat) : List Nat := [fromNorm n, fromNorm 0, 0, 0, 0, 0, 0, 0]
+
+/-- the value handed to `single_color` for a block whose 16 values are the 8-bit input `v`: `Block::from_raw` clamps
+`n8::f32(v)` to [0, 1] (no effect), `min = max`, `diff = max − min = 0 < BC4_EPSILON`, `value = (min + max) * 0.5` -/
+def bc4ValueOfU8 (v : Nat) : Nat := F32.mul (F32.add (fclamp01 (n8f32 v)) (fclamp01 (n8f32 v))) fHalf
+
+/-- `closest_s8_norm = (254.0 * value + 0.5) as u8` in binary32 -/
+def snormClosestF32 (value : Nat) : Nat := F32.toU8 (F32.add (F32.mul (F32.ofNat 254) value) fHalf)
+
+/-- `s8::uf32(c)`: `(norm(c) as f32 * 31.0) * (1.0 / (254.0 * 31.0))` -/
+def s8uf32 (c : Nat) : Nat := F32.mul (F32.mul (F32.ofNat (s8norm c)) (F32.ofNat 31)) (F32.divLit 1 7874)
+
+/-- the guard `(closest.c0_f - value).abs() < BC4_EPSILON` (`BC4_EPSILON = 1/65536`) in binary32 -/
+def snormGuardF32 (value : Nat) : Bool :=
+  decide (fabs (F32.sub (s8uf32 (fromNorm (snormClosestF32 value))) value) < F32.toRat (F32.divLit 1 65536))
+
+/-- closed form of `closest_s8_norm` for the 8-bit input `v`: `round(254·v/255)` -/
+def snormOfU8 (v : Nat) : Nat := (2 * 254 * v + 255) / 510
+
+/-- closed form of the guard for the 8-bit input `v`, in exact arithmetic: `|n/254 − v/255| < 1/65536` with
+`n = snormOfU8 v`.  It holds exactly for `v ∈ {0, 255}` (the smallest other distance is 1/64770, at `v = 1` and
+`v = 254`).  PROVED equal to the binary32 evaluation `snormGuardF32 (bc4ValueOfU8 v)`, and `snormOfU8 v` to
+`snormClosestF32 (bc4ValueOfU8 v)`, for all 256 values (`Proofs/Enc13Single.snorm8_is_f32`). -/
+def snormGuard8 (v : Nat) : Bool := decide (absDiff (255 * snormOfU8 v) (254 * v) * 65536 < 254 * 255)
+
+/-- the block `single_color` emits for a channel that is the 8-bit value `v` at all 16 pixels when the `closest`
+branch is taken (BC4_SNORM: red; BC5_SNORM: red and green independently, `handle_bc5`); `none`: the guard fails and
+the float palette search (`new_inter6` / `new_inter4`, `closest`) decides -/
+def bc4sSingle8 (v : Nat) : Option (List Nat) := if snormGuard8 v then some (bc4sClosest (snormOfU8 v)) else none
+
+/-! ### BC7: which modes are tried (`compress_bc7_block`; presets: `BC7_UNORM` in bc.rs) -/
+
+/-- `Bc7Modes::MODEk` (bit flags) -/
+def MODE (k : Nat) : Nat := 1 <<< k
+
+/-- `allowed_modes` of the quality presets (`BC7_UNORM` in bc.rs); `force_modes` is always empty there -/
+def bc7Allowed : Quality → Nat
+  | .fast => MODE 0 ||| MODE 4 ||| MODE 6
+  | .normal => MODE 1 ||| MODE 3 ||| MODE 4 ||| MODE 5 ||| MODE 6 ||| MODE 7
+  | .high => 255
+  | .unreasonable => 255
+
+/-- the mode set after filtering, from `stats.min.a`, `stats.max.a`, `allowed_modes`, `force_modes`
+(`opaque() = (min.a == 255)`, `single_alpha().is_some() = (min.a == max.a)`) -/
+def bc7ModesTried (minA maxA allowed force : Nat) : Nat :=
+  let modes := MODE 4 ||| MODE 5
+  let modes := if minA = 255 then modes ||| (MODE 0 ||| MODE 1 ||| MODE 2 ||| MODE 3) else modes ||| MODE 7
+  let modes :=
+    if minA = maxA ∨ maxA ≠ 255 ∨ (minA ≠ 255 ∧ allowed &&& (MODE 4 ||| MODE 5 ||| MODE 7) = 0) then modes ||| MODE 6
+    else modes
+  let modes := modes &&& allowed
+  let modes := if modes = 0 then allowed else modes
+  if force ≠ 0 then force else modes
+
+/-! ### BC7: p-bits of `compress_rgba` (modes 6 and 7), `PBitHandling::pick_best` -/
+
+/-- `UniquePBits::ALL` -/
+def ALL_UNIQUE : List (Bool × Bool) := [(false, false), (false, true), (true, false), (true, true)]
+
+/-- `let possible_p_bits = if opaque { Some(&[[true, true]]) } else { None }` (`opaque` = all pixels of the
+subset have `a == 255`) -/
+def possiblePBits (allOpaque : Bool) : Option (List (Bool × Bool)) := if allOpaque then some [(true, true)] else none
+
+/-- `PBitHandling::pick_best`: the states handed to `pick_best_of_directly`.  `best1`, `best2` stand for
+`get_best` / `get_best_2` (f32 estimates, not modelled). -/
+def pickBestStates {S : Type} (all : Option (List S)) (ALL : List S) (maxComb : Nat) (best1 : List S → S)
+    (best2 : List S → List S) : List S :=
+  let all := all.getD ALL
+  if all.length = 1 ∨ all.length ≤ maxComb then all
+  else if maxComb = 1 then [best1 all]
+  else if maxComb = 2 then best2 all
+  else ALL
+
+/-- `pick_best_of_directly`: the first state of strictly smallest error.  `err` stands for the `u32` error that the
+float search `f` returns for a state (not modelled); `none` = `possibilities[0]` panics. -/
+def pickBestOfDirectly {S : Type} (poss : List S) (err : S → Nat) : Option S :=
+  match poss with
+  | [] => none
+  | p :: rest => some (rest.foldl (fun (best : Nat × S) p => if err p < best.1 then (err p, p) else best) (err p, p)).2
+
+/-- `p.swap(0, 1)` together with the endpoints when the anchor index needs it (`Compressed::mode6`, `mode7`) -/
+def pSwap (p : Bool × Bool) (swap : Bool) : Bool × Bool := if swap then (p.2, p.1) else p
+
+/-- `max_p_bit_combinations` of the presets (`BC7_UNORM`) -/
+def bc7MaxPBitCombinations : Quality → Nat
+  | .fast => 1
+  | .normal => 1
+  | .high => 2
+  | .unreasonable => 4
+
+/-- what `compress_rgba` + `Compressed::mode6/7` can store as the two p-bits of a subset: `some p` when the list
+handed to `pick_best_of_directly` is the single state `p` and `p` is invariant under the endpoint swap — then the
+stored bits are `p` whatever the f32 estimates and errors are (`get_best` / `get_best_2` are instantiated here by
+"first" / "first two"; for a one-element list they are never consulted: `Proofs/Enc13Opaque.opaque_pbits`,
+`subsetPBits_spec`); `none`: the choice depends on the float search. -/
+def subsetPBits (q : Quality) (allOpaque : Bool) : Option (Bool × Bool) :=
+  match pickBestStates (possiblePBits allOpaque) ALL_UNIQUE (bc7MaxPBitCombinations q) (fun l => l.headD (false, false))
+      (fun l => l.take 2) with
+  | [s] => if (possiblePBits allOpaque).isSome ∧ pSwap s true = s then some s else none
+  | _ => none
+
+/-! ### BC7: rotations of modes 4 and 5 (`RotationSelect`) -/
+
+/-- `RotationSelect::get_forced_rotation` with `allow_color_rotation = true` (every preset): `true` =
+`Some(Rotation::None)` — the alpha range exceeds `ALPHA_THRESHOLD = 16`, or every pixel is approximately grey
+(`max(|g − r|, |g − b|) < COLOR_VARIANCE_THRESHOLD = 8`); `false` = `None`, nothing forced -/
+def bc7RotationForced (px : List Px) : Bool :=
+  decide (absDiff (chanMax px 3) (chanMin px 3) > 16) ||
+    px.all fun p => decide (max (absDiff p.g p.r) (absDiff p.g p.b) < 8)
+
+/-- `Rotation::channel` of a rotation field value (0 None → alpha, 1 AR → red, 2 AG → green, 3 AB → blue) -/
+def rotChannel (rot : Nat) : Nat := if rot = 1 then 0 else if rot = 2 then 1 else if rot = 3 then 2 else 3
+
+/-- the rotations `RotationSelect::pick_best` can hand to the compressor: the forced one, else those whose channel
+is not constant (`continue` on `stats.min.get(channel) == stats.max.get(channel)`); which of them are among the
+first `max_color_rotations` of the f32 ranking (`get_rotations`) is not modelled -/
+def bc7RotationsAllowed (px : List Px) : List Nat :=
+  if bc7RotationForced px then [0] else [0, 1, 2, 3].filter fun r => (chanConst px (rotChannel r)).isNone
+
+/-! ### BC7: constant separated channel in modes 4 and 5 (`compress_color_separate_alpha_with_rotation`) -/
+
+/-- `Alpha::<A>::promote` -/
+def promoteAlpha (A v : Nat) : Nat := if A = 8 then v else Bc7.promote v A
+
+/-- the single-alpha branch: `round`, `floor`, `ceil` are the results of `Alpha::<A>::round/floor/ceil(a·(1/255))`.
+Returns the two endpoints and whether the exact branch (`IndexList::constant(0)`, error 0) was taken; in the other
+branch the indexes come from `closest_alpha` (integer search, not modelled). -/
+def singleAlpha (A a round floor ceil : Nat) : (Nat × Nat) × Bool :=
+  if promoteAlpha A round = a then ((round, round), true) else ((floor, ceil), false)
+
+/-- `a as f32 * (1.0 / 255.0)` -/
+def alphaF32 (a : Nat) : Nat := F32.mul (F32.ofNat a) (F32.divLit 1 255)
+
+/-- `channel_to_vec::<B>(c)`: `promote(c, B) as f32 * (1.0 / 255.0)` (`B = 8`: `c` itself) -/
+def channelToVec (B c : Nat) : Nat := F32.mul (F32.ofNat (promoteAlpha B c)) (F32.divLit 1 255)
+
+/-- `channel_round::<B>(v)` for `B = 8` and `B ∈ 5..=7`, in binary32 -/
+def channelRoundF32 (B v : Nat) : Nat :=
+  if B = 8 then F32.toU8 (F32.add (F32.mul v (F32.ofNat 255)) fHalf)
+  else
+    let max := 2 ^ B - 1
+    let v := fclamp01 v
+    let nearest := F32.toU8 (F32.add (F32.mul v (F32.ofNat max)) fHalf)
+    let err := fabs (F32.sub (channelToVec B nearest) v)
+    if nearest > 0 ∧ fabs (F32.sub (channelToVec B (nearest - 1)) v) < err then nearest - 1
+    else if nearest < max ∧ fabs (F32.sub (channelToVec B (nearest + 1)) v) < err then nearest + 1
+    else nearest
+
+/-- `channel_floor::<B>(v)` -/
+def channelFloorF32 (B v : Nat) : Nat :=
+  if B = 8 then F32.toU8 (F32.mul v (F32.ofNat 255))
+  else
+    let max := 2 ^ B - 1
+    let v := fclamp01 v
+    let floor := F32.toU8 (F32.mul v (F32.ofNat max))
+    if floor > 0 ∧ F32.toRat (channelToVec B floor) > F32.toRat v then floor - 1
+    else if floor < max ∧ F32.toRat (channelToVec B (floor + 1)) < F32.toRat v then floor + 1
+    else floor
+
+/-- `channel_ceil::<B>(v)`, `CEIL = 0.9999` -/
+def channelCeilF32 (B v : Nat) : Nat :=
+  let CEIL := F32.divLit 9999 10000
+  if B = 8 then F32.toU8 (F32.add (F32.mul v (F32.ofNat 255)) CEIL)
+  else
+    let max := 2 ^ B - 1
+    let v := fclamp01 v
+    let s := F32.add (F32.mul v (F32.ofNat max)) CEIL
+    let ceil := F32.toU8 (if F32.toRat s > (max : Rat) then F32.ofNat max else s)
+    if ceil < max ∧ F32.toRat (channelToVec B ceil) < F32.toRat v then ceil + 1
+    else if ceil > 0 ∧ F32.toRat (channelToVec B (ceil - 1)) > F32.toRat v then ceil - 1
+    else ceil
+
+/-- the two stored endpoints of the separated channel of modes 4 (`A = 6`) and 5 (`A = 8`) when that channel is the
+8-bit constant `a`, before the anchor-index swap of `Compressed::mode4/5`, and whether the exact branch was taken
+(then the separated index list is `constant(0)`) -/
+def sepEndpoints (A a : Nat) : (Nat × Nat) × Bool :=
+  singleAlpha A a (channelRoundF32 A (alphaF32 a)) (channelFloorF32 A (alphaF32 a)) (channelCeilF32 A (alphaF32 a))
+
+/-! ### BC7: reading the header fields back from an emitted block (positions: `Bc7Spec`) -/
+
+/-- mode, partition, rotation, index-selection bit, the p-bits in stored order, the raw alpha endpoint fields in
+stored order (`[]` for modes 0–3) -/
+structure Bc7Fields where
+  mode : Nat
+  part : Nat
+  rot : Nat
+  sel : Nat
+  pbits : List Nat
+  alpha : List Nat
+  deriving DecidableEq, Repr
+
+def bc7Fields (b : Nat) : Option Bc7Fields :=
+  let m := Bc7Spec.modeOf b
+  match Bc7Spec.modes[m]? with
+  | none => none
+  | some r =>
+    some {
+      mode := m
+      part := Bc7Spec.rd b (m + 1) r.partBits
+      rot := Bc7Spec.rd b (m + 1 + r.partBits) r.rotBits
+      sel := Bc7Spec.rd b (m + 1 + r.partBits + r.rotBits) r.selBits
+      pbits := (List.range (Bc7Spec.pBitCount r)).map fun i => Bc7Spec.rd b (Bc7Spec.pStart m r + i) 1
+      alpha := if r.alphaBits = 0 then [] else
+        (List.range (2 * r.subsets)).map fun e => Bc7Spec.rd b (Bc7Spec.alphaStart m r + e * r.alphaBits) r.alphaBits }
+
+/-! ### BC7: what the discrete rules allow for a block of RGBA8 pixels (no dithering) -/
+
+/-- constraint on the header fields of the block emitted for the 16 pixels `px` at quality `q`:
+* `modes`: the admissible modes — `[5]` for a single-coloured block (`compress_single_color`), else the members of
+  `bc7ModesTried min.a max.a (bc7Allowed q) 0` (`best.better(…)` only ever holds a tried mode);
+and, for the mode / partition / rotation the block shows,
+* `rots`: admissible rotation fields (modes 4, 5; `none` = the mode has no such field);
+* `sel`: mode 4 with a constant separated channel returns the `C3A2` candidate alone (index-selection bit 1);
+* `pbits`: per stored p-bit `some 1` = forced to 1 (mode 6: opaque block; mode 7: per opaque subset), `none` = free;
+  `inside` marks the positions that lie inside the image: a subset of mode 7 that contains a padded position is left
+  free, so that the rule does not depend on WHICH pixel of the block the padding repeats (every other ingredient —
+  minima, maxima, constancy, the grey test — is a function of the set of pixel values, which padding does not change);
+* `alpha`: the alpha endpoint fields as an unordered pair when the separated channel of modes 4 / 5 is constant. -/
+structure Bc7Rule where
+  modes : List Nat
+  rots : Option (List Nat)
+  sel : Option Nat
+  pbits : List (Option Nat)
+  alpha : Option (Nat × Nat)
+  deriving DecidableEq, Repr
+
+def pbitRule (p : Option (Bool × Bool)) : List (Option Nat) :=
+  match p with
+  | some (a, b) => [some (if a then 1 else 0), some (if b then 1 else 0)]
+  | none => [none, none]
+
+def bc7Rule (q : Quality) (px : List Px) (inside : List Bool) (mode part rot : Nat) : Bc7Rule :=
+  match singleColour px with
+  | some c => { modes := [5], rots := some [0], sel := none, pbits := [], alpha := some (c.a, c.a) }
+  | none =>
+    let minA := chanMin px 3
+    let maxA := chanMax px 3
+    let tried := bc7ModesTried minA maxA (bc7Allowed q) 0
+    let modes := (List.range 8).filter fun k => tried &&& MODE k != 0
+    let free (n : Nat) : List (Option Nat) := List.replicate n none
+    if mode = 4 ∨ mode = 5 then
+      let sep := chanConst px (rotChannel rot)
+      { modes := modes
+        rots := some (bc7RotationsAllowed px)
+        sel := if mode = 4 ∧ sep.isSome then some 1 else none
+        pbits := []
+        alpha := sep.map fun a =>
+          let e := (sepEndpoints (if mode = 4 then 6 else 8) a).1
+          (min e.1 e.2, max e.1 e.2) }
+    else if mode = 6 then
+      { modes := modes, rots := none, sel := none, pbits := pbitRule (subsetPBits q (decide (minA = 255))), alpha := none }
+    else if mode = 7 then
+      let opaqueSubset (s : Nat) : Bool :=
+        (List.range 16).all fun i => BcTables.specSubset 2 part i != s ||
+          (inside.getD i false && (px.getD i ⟨0, 0, 0, 0⟩).a == 255)
+      { modes := modes, rots := none, sel := none,
+        pbits := pbitRule (subsetPBits q (opaqueSubset 0)) ++ pbitRule (subsetPBits q (opaqueSubset 1)), alpha := none }
+    else
+      { modes := modes, rots := none, sel := none,
+        pbits := free (match Bc7Spec.modes[mode]? with | some r => Bc7Spec.pBitCount r | none => 0), alpha := none }
+
+/-- does an emitted block meet the rule (the check `tools/propcfg/C13.py` performs on the printed forms) -/
+def bc7Meets (rule : Bc7Rule) (f : Bc7Fields) : Bool :=
+  rule.modes.contains f.mode &&
+  (match rule.rots with | some l => l.contains f.rot | none => true) &&
+  (match rule.sel with | some s => f.sel == s | none => true) &&
+  (rule.pbits.length == f.pbits.length &&
+    (List.range f.pbits.length).all fun i => match rule.pbits.getD i none with | some v => f.pbits.getD i 0 == v | none => true) &&
+  (match rule.alpha with
+   | some (lo, hi) => f.alpha.length == 2 && min (f.alpha.getD 0 0) (f.alpha.getD 1 0) == lo &&
+       max (f.alpha.getD 0 0) (f.alpha.getD 1 0) == hi
+   | none => true)
+
 /-! ### which bytes of a single-colour block the discrete model predicts -/
 
 /-- corner value of an 8-bit channel as an `m`-level endpoint (`none`: not exactly representable; the
@@ -260,5 +623,40 @@ def predictSingle (f : Option Fmt) (q : Quality) (r g b a : Nat) : List (Nat × 
   | some .bc4u => bc4 0 r
   | some .bc5u => bc4 0 r ++ bc4 8 g
   | some _ => []
+
+/-- `(byte offset, bytes)` pieces of the block emitted for the 16 RGBA8 pixels `px` (after `blockSrc` replication)
+that follow from the discrete logic alone; `dc`, `da` = colour / alpha dithering requested:
+* single-coloured block, no dithering: `predictSingle`;
+* BC2 / BC2 premultiplied without alpha dithering: the eight alpha bytes of EVERY block (`bc2AlphaBlock`; the
+  premultiplied encoder keeps `a`: `pre_multiply_alpha` stores `clamp(a)`);
+* BC4-type UNORM block of a constant channel (BC3 / BC3p alpha; RXGB / BC3n / BC4U red; BC5U red, green), no
+  dithering, not `Unreasonable` (there `reference_brute_force` runs first): `bc4uSingle` whatever the other channels;
+* BC4S (red) / BC5S (red, green) block of a constant channel that passes the `closest` guard: `bc4sSingle8`, at every
+  quality and dithering (`single_color` returns before it looks at `options.dither`; `brute_force` excludes SNORM). -/
+def predictBlock (f : Option Fmt) (q : Quality) (dc da : Bool) (px : List Px) : List (Nat × List Nat) :=
+  let single : List (Nat × List Nat) :=
+    match singleColour px with
+    | some c => if dc ∨ da then [] else predictSingle f q c.r c.g c.b c.a
+    | none => []
+  let u (o c : Nat) : List (Nat × List Nat) :=
+    match chanConst px c with
+    | some v => if dc ∨ da ∨ q = .unreasonable then [] else [(o, bc4uSingle v)]
+    | none => []
+  let s (o c : Nat) : List (Nat × List Nat) :=
+    match (chanConst px c).bind bc4sSingle8 with
+    | some blk => [(o, blk)]
+    | none => []
+  let extra : List (Nat × List Nat) :=
+    match f with
+    | some .bc2 | some .bc2p => if da then [] else [(0, bc2AlphaBlock (px.map (·.a)))]
+    | some .bc3 | some .bc3p => u 0 3
+    | some .rxgb | some .bc3n | some .bc4u => u 0 0
+    | some .bc5u => u 0 0 ++ u 8 1
+    | some .bc4s => s 0 0
+    | some .bc5s => s 0 0 ++ s 8 1
+    | _ => []
+  -- a piece of `single` and a piece of `extra` at the same offset are the same prediction (`bc4uSingle`)
+  let all := single ++ extra.filter fun e => !(single.any fun p => p.1 == e.1)
+  all.filter (·.1 == 0) ++ all.filter (·.1 != 0)
 
 end Dds.Enc13
